@@ -88,16 +88,20 @@ func (i *c17ResvInterp) DeleteReservation(ctx context.Context, ref *corev1.Objec
 // every Reservation reports NeedPreemption() and Preempt answers from the harness's model of the preemption process.
 type c17PreemptInterp struct{ *c17ResvInterp }
 
-type c17PreemptObj struct{ reservation.Object }
+type c17PreemptObj struct {
+	reservation.Object
+	env *c17Env
+}
 
-func (c17PreemptObj) NeedPreemption() bool { return true }
+// whether a reservation can only be placed by preempting others is a property of the reservation (drawn per job)
+func (o c17PreemptObj) NeedPreemption() bool { return !o.env.noPreemptNeeded[o.GetName()] }
 
 func (i *c17PreemptInterp) Preemption() reservation.Preemption { return c17Preemption{env: i.env} }
 
 func (i *c17PreemptInterp) GetReservation(ctx context.Context, ref *corev1.ObjectReference) (reservation.Object, error) {
 	obj, err := i.c17ResvInterp.GetReservation(ctx, ref)
 	if obj != nil {
-		obj = c17PreemptObj{obj}
+		obj = c17PreemptObj{obj, i.env}
 	}
 	return obj, err
 }
@@ -105,7 +109,7 @@ func (i *c17PreemptInterp) GetReservation(ctx context.Context, ref *corev1.Objec
 func (i *c17PreemptInterp) CreateReservation(ctx context.Context, job *sev1alpha1.PodMigrationJob) (reservation.Object, error) {
 	obj, err := i.c17ResvInterp.CreateReservation(ctx, job)
 	if obj != nil {
-		obj = c17PreemptObj{obj}
+		obj = c17PreemptObj{obj, i.env}
 	}
 	return obj, err
 }
@@ -118,6 +122,13 @@ type c17Preemption struct{ env *c17Env }
 func (p c17Preemption) Preempt(ctx context.Context, job *sev1alpha1.PodMigrationJob, obj reservation.Object) (bool, reconcile.Result, error) {
 	e := p.env
 	name := obj.GetName()
+	e.sawPreemptCall = true
+	if e.noPreemptNeeded[name] {
+		// asked for a reservation that has no victims to wait for: there is nothing to do
+		e.sawPreemptForNoNeed = true
+		e.hist = append(e.hist, "    Preempt("+name+") -> nothing to preempt, complete")
+		return true, reconcile.Result{}, nil
+	}
 	if e.preemptState[name] == 0 {
 		e.preemptState[name] = 1
 	}
@@ -167,10 +178,13 @@ type c17Job struct {
 	resvChangedSince       bool
 
 	// every status write of the job that reached the API, in order (what a watcher of the API sees)
-	phasesWritten   []sev1alpha1.PodMigrationJobPhase
-	writtenTerminal sev1alpha1.PodMigrationJobPhase // first Succeeded/Failed that was written
-	nameOnlyRef     bool                            // user-supplied reservationRef without UID
-	targetBoundOwn  bool                            // the target pod itself consumed the job's reservation
+	phasesWritten         []sev1alpha1.PodMigrationJobPhase
+	writtenTerminal       sev1alpha1.PodMigrationJobPhase // first Succeeded/Failed that was written
+	nameOnlyRef           bool                            // user-supplied reservationRef without UID
+	userTemplate          string                          // "", or the allocateOnce value of a user-written reservation template: nil / true / false
+	falseTemplateConsumed bool                            // template said allocateOnce=false and another pod consumed the reservation before the job evicted
+	nonOnceConsumed       bool                            // a non-allocate-once reservation of this job was consumed by another pod before the job evicted
+	targetBoundOwn        bool                            // the target pod itself consumed the job's reservation
 
 	// the pattern "unschedulable report -> reconcile records ReservationScheduled=False -> reservation scheduled on the
 	// target pod's own node -> reconcile": 1 = False condition persisted, 2 = then scheduled on the pod's node, 3 = then reconciled
@@ -200,19 +214,22 @@ type c17Env struct {
 	faultsDelivered   int
 	justEvicted       bool
 
-	evictImmediate     bool
-	nextPodUnscheduled bool
-	extended           bool           // third test: unscheduled target pods that may get bound through a reservation; optional preemption
-	preempt            bool           // the interpreter offers Preemption()
-	preemptState       map[string]int // per reservation: 0 not started, 1 in progress, 2 complete
-	preemptShape       int            // how an incomplete Preempt answers during the next reconcile
-	userInput          bool           // second test: jobs as users write them (name-only reservationRef, unresolvable podRef), TTL expiry favoured
-	colocated          bool           // generator profile: several reservation-first jobs of one workload whose reservations tend to share a node
-	jobs               []*c17Job
-	pods               []string
-	hist               []string
-	stamps             []c17Stamp
-	dead               bool
+	evictImmediate                                                                                                   bool
+	nextPodUnscheduled                                                                                               bool
+	extended                                                                                                         bool            // third test: unscheduled target pods that may get bound through a reservation; optional preemption
+	preempt                                                                                                          bool            // the interpreter offers Preemption()
+	preemptState                                                                                                     map[string]int  // per reservation: 0 not started, 1 in progress, 2 complete
+	noPreemptNeeded                                                                                                  map[string]bool // reservations whose NeedPreemption() is false
+	sawFalseTemplateConsumedThenReconciled                                                                           bool
+	sawPreemptForNoNeed, sawGivenUpNoNeedReconciled, sawNonOnceConsumedBeforeEvict, sawNonOnceConsumedThenReconciled bool
+	preemptShape                                                                                                     int  // how an incomplete Preempt answers during the next reconcile
+	userInput                                                                                                        bool // second test: jobs as users write them (name-only reservationRef, unresolvable podRef), TTL expiry favoured
+	colocated                                                                                                        bool // generator profile: several reservation-first jobs of one workload whose reservations tend to share a node
+	jobs                                                                                                             []*c17Job
+	pods                                                                                                             []string
+	hist                                                                                                             []string
+	stamps                                                                                                           []c17Stamp
+	dead                                                                                                             bool
 
 	// distribution
 	sawRestart, sawFaultAfterEvict, sawResvChangeWhileRunning, sawSameNode, sawEvictReplacement bool
@@ -248,7 +265,7 @@ func c17Describe(obj client.Object) string {
 }
 
 func c17NewEnv(c *vk.Case, scheme *runtime.Scheme) *c17Env {
-	e := &c17Env{c: c, clk: clocktesting.NewFakeClock(c17Epoch), evictedUIDs: map[types.UID]bool{}, preemptState: map[string]int{}, lateScheduled: map[types.UID]bool{}}
+	e := &c17Env{c: c, clk: clocktesting.NewFakeClock(c17Epoch), evictedUIDs: map[types.UID]bool{}, preemptState: map[string]int{}, noPreemptNeeded: map[string]bool{}, lateScheduled: map[types.UID]bool{}}
 	raw := fake.NewClientBuilder().WithScheme(scheme).
 		WithStatusSubresource(&sev1alpha1.PodMigrationJob{}, &sev1alpha1.Reservation{}).Build()
 	// what an API server does on create
@@ -511,6 +528,10 @@ func (e *c17Env) onEvict(ctx context.Context, job *sev1alpha1.PodMigrationJob, p
 			e.sawEvictAfterPreemption = true
 		}
 		if sig := c17Gate(resv, pod, preemptionComplete); sig != "" {
+			if sig == "evict:reservation-unschedulable-preemption-incomplete" && e.noPreemptNeeded[resv.Name] {
+				// no preemption is needed for it, none secured anything: it is simply unschedulable
+				sig = "evict:reservation-unschedulable-and-needs-no-preemption"
+			}
 			// same clause, different defect: the pod found under the job's pod name is not the pod the job recorded
 			// (spec.podRef.uid, stamped by the controller itself when the job started)
 			if sig == "evict:reservation-on-pod-node" && api != nil && api.Spec.PodRef != nil && api.Spec.PodRef.UID != "" && api.Spec.PodRef.UID != pod.UID {
@@ -670,13 +691,7 @@ func (e *c17Env) resvBindExisting(r *sev1alpha1.Reservation, p *corev1.Pod, read
 	if err := e.base.Update(c17Ctx, p); err != nil {
 		panic(fmt.Sprintf("harness: update pod: %v", err))
 	}
-	now := metav1.NewTime(e.clk.Now())
-	r.Status.CurrentOwners = []corev1.ObjectReference{{Namespace: p.Namespace, Name: p.Name, UID: p.UID}}
-	r.Status.Phase = sev1alpha1.ReservationSucceeded
-	if c := c17ResvCond(r, sev1alpha1.ReservationConditionReady); c != nil {
-		c.Status, c.Reason, c.LastProbeTime = sev1alpha1.ConditionStatusFalse, sev1alpha1.ReasonReservationSucceeded, now
-	}
-	e.updateResvStatus(r)
+	e.resvConsumed(r, corev1.ObjectReference{Namespace: p.Namespace, Name: p.Name, UID: p.UID})
 	e.hist = append(e.hist, fmt.Sprintf("env: unscheduled pod %s (uid %s) is scheduled on %s by consuming reservation %s", p.Name, p.UID, r.Status.NodeName, r.Name))
 }
 
@@ -733,6 +748,32 @@ func (e *c17Env) resvExpire(r *sev1alpha1.Reservation) {
 	e.hist = append(e.hist, fmt.Sprintf("env: reservation %s expired", r.Name))
 }
 
+// resvConsumed is the status update of the scheduler's reservation controller (syncStatus): currentOwners always, phase
+// Succeeded only for an allocate-once reservation (spec.allocateOnce nil counts as true); any other stays Available.
+func (e *c17Env) resvConsumed(r *sev1alpha1.Reservation, owner corev1.ObjectReference) {
+	now := metav1.NewTime(e.clk.Now())
+	r.Status.CurrentOwners = append(r.Status.CurrentOwners, owner)
+	for _, j := range e.jobs {
+		if api := e.getJob(j.name); j.userTemplate == "false" && j.resvName == r.Name && api != nil && !c17Terminal(api.Status.Phase) && c17JobCond(api, sev1alpha1.PodMigrationJobConditionEviction) == nil && owner.UID != j.podUID {
+			j.falseTemplateConsumed = true
+		}
+	}
+	if r.Spec.AllocateOnce == nil || *r.Spec.AllocateOnce {
+		r.Status.Phase = sev1alpha1.ReservationSucceeded
+		if c := c17ResvCond(r, sev1alpha1.ReservationConditionReady); c != nil {
+			c.Status, c.Reason, c.LastProbeTime = sev1alpha1.ConditionStatusFalse, sev1alpha1.ReasonReservationSucceeded, now
+		}
+	} else {
+		for _, j := range e.jobs {
+			if api := e.getJob(j.name); j.resvName == r.Name && api != nil && !c17Terminal(api.Status.Phase) && c17JobCond(api, sev1alpha1.PodMigrationJobConditionEviction) == nil && owner.UID != j.podUID {
+				j.nonOnceConsumed = true
+				e.sawNonOnceConsumedBeforeEvict = true
+			}
+		}
+	}
+	e.updateResvStatus(r)
+}
+
 // resvBind: a pod that matches the reservation's owners lands on the reservation's node and consumes it.
 // For an allocate-once reservation the scheduler writes CurrentOwners and phase Succeeded in one status update.
 func (e *c17Env) resvBind(r *sev1alpha1.Reservation, podName string, ready bool) {
@@ -754,14 +795,8 @@ func (e *c17Env) resvBind(r *sev1alpha1.Reservation, podName string, ready bool)
 		p := e.createPod(podName, r.Status.NodeName, false, ready)
 		ref = corev1.ObjectReference{Namespace: p.Namespace, Name: p.Name, UID: p.UID}
 	}
-	now := metav1.NewTime(e.clk.Now())
-	r.Status.CurrentOwners = []corev1.ObjectReference{ref}
-	r.Status.Phase = sev1alpha1.ReservationSucceeded
-	if c := c17ResvCond(r, sev1alpha1.ReservationConditionReady); c != nil {
-		c.Status, c.Reason, c.LastProbeTime = sev1alpha1.ConditionStatusFalse, sev1alpha1.ReasonReservationSucceeded, now
-	}
-	e.updateResvStatus(r)
-	e.hist = append(e.hist, fmt.Sprintf("env: pod %s (uid %s, ready=%v) bound reservation %s on %s", ref.Name, ref.UID, ready, r.Name, r.Status.NodeName))
+	e.resvConsumed(r, ref)
+	e.hist = append(e.hist, fmt.Sprintf("env: pod %s (uid %s, ready=%v) bound reservation %s on %s (phase now %s)", ref.Name, ref.UID, ready, r.Name, r.Status.NodeName, r.Status.Phase))
 }
 
 // ---------------------------------------------------------------- job creation
@@ -771,9 +806,13 @@ func (e *c17Env) createJob(t *rapid.T) {
 	podName := rapid.SampledFrom(e.pods).Draw(t, "jobPod")
 	pod := e.getPod(podName)
 	origin := rapid.SampledFrom([]string{"user", "user", "descheduler", "preset-ref"}).Draw(t, "origin")
-	invalidPodRef, nameOnlyRef := false, false
+	invalidPodRef, nameOnlyRef, userTemplate := false, false, ""
 	if e.userInput {
-		switch rapid.SampledFrom([]string{"name-only-ref", "name-only-ref", "name-only-ref", "uid-ref", "plain", "plain", "invalid-podref"}).Draw(t, "userInput") {
+		switch rapid.SampledFrom([]string{"name-only-ref", "name-only-ref", "name-only-ref", "uid-ref", "plain", "template", "template", "template", "invalid-podref"}).Draw(t, "userInput") {
+		case "template":
+			// spec.reservationOptions.template written by the user; only allocateOnce is varied (the rest is filled in from the pod)
+			origin = "user"
+			userTemplate = rapid.SampledFrom([]string{"false", "false", "nil", "true"}).Draw(t, "templateAllocateOnce")
 		case "name-only-ref":
 			origin, nameOnlyRef = "preset-ref", true
 		case "uid-ref":
@@ -835,6 +874,21 @@ func (e *c17Env) createJob(t *rapid.T) {
 		if pod != nil && rapid.Bool().Draw(t, "podRefHasUID") {
 			job.Spec.PodRef.UID = pod.UID
 		}
+		if userTemplate != "" {
+			if mode == sev1alpha1.PodMigrationJobModeEvictionDirectly {
+				mode = sev1alpha1.PodMigrationJobModeReservationFirst
+				job.Spec.Mode = mode
+			}
+			tmpl := &sev1alpha1.ReservationTemplateSpec{}
+			switch userTemplate {
+			case "false":
+				tmpl.Spec.AllocateOnce = ptr.To(false)
+			case "true":
+				tmpl.Spec.AllocateOnce = ptr.To(true)
+			}
+			job.Spec.ReservationOptions = &sev1alpha1.PodMigrateReservationOptions{Template: tmpl}
+			j.userTemplate = userTemplate
+		}
 		if invalidPodRef {
 			// spec.podRef without a name: the controller has an explicit InvalidPodRef abort for it
 			job.Spec.PodRef = &corev1.ObjectReference{Namespace: c17NS}
@@ -889,6 +943,13 @@ func (e *c17Env) createJob(t *rapid.T) {
 	if j.nameOnlyRef {
 		e.hist = append(e.hist, "    (spec.reservationOptions.reservationRef of "+j.name+" carries only the name, no UID)")
 	}
+	if j.userTemplate != "" {
+		e.hist = append(e.hist, "    (spec.reservationOptions.template of "+j.name+" is user-written, spec.allocateOnce="+j.userTemplate+")")
+	}
+	if e.preempt && !j.direct && rapid.IntRange(0, 2).Draw(t, "needsNoPreemption") == 2 {
+		e.noPreemptNeeded[j.resvName] = true
+		e.hist = append(e.hist, "    (reservation "+j.resvName+" of "+j.name+" reports NeedPreemption()=false)")
+	}
 }
 
 var c17UUIDCounter int
@@ -917,6 +978,15 @@ func (e *c17Env) reconcile(t *rapid.T, j *c17Job) {
 	}
 	if j.targetBoundOwn && !preTerminal {
 		e.sawReconcileAfterTargetBound = true
+	}
+	if j.falseTemplateConsumed && !preTerminal {
+		e.sawFalseTemplateConsumedThenReconciled = true
+	}
+	if j.nonOnceConsumed && !preTerminal {
+		e.sawNonOnceConsumedThenReconciled = true
+	}
+	if r := e.getResv(j.resvName); r != nil && !preTerminal && e.noPreemptNeeded[j.resvName] && r.Status.Phase == sev1alpha1.ReservationFailed && r.Status.NodeName == "" {
+		e.sawGivenUpNoNeedReconciled = true
 	}
 	res, err := e.r.Reconcile(c17Ctx, reconcile.Request{NamespacedName: types.NamespacedName{Name: j.name}})
 	e.justEvicted = false
@@ -1174,8 +1244,8 @@ func c17RunTest(t *testing.T, unit string, userInput bool) {
 		// a pod can consume r: r is Available; if r was made for one particular (pending) pod, that pod is still there, unscheduled
 		ownedByOnePod := func(r *sev1alpha1.Reservation) bool { return len(r.Spec.Owners) > 0 && r.Spec.Owners[0].Object != nil }
 		bindable := func(r *sev1alpha1.Reservation) bool {
-			if r.Status.Phase != sev1alpha1.ReservationAvailable {
-				return false
+			if r.Status.Phase != sev1alpha1.ReservationAvailable || len(r.Status.CurrentOwners) > 0 {
+				return false // used up (a reservation sized for one pod has nothing left once a pod consumed it, reusable or not)
 			}
 			if ownedByOnePod(r) {
 				p := e.getPod(r.Spec.Owners[0].Object.Name)
@@ -1621,6 +1691,15 @@ func c17RunTest(t *testing.T, unit string, userInput bool) {
 		c.ClassIf(e.sawOrphanAtTTL, "ttl-abort-leaves-unreferenced-reservation(not asserted)")
 		c.ClassIf(e.sawTTLAbortNameOnlyRef, "ttl-abort-of-job-with-name-only-reservation-ref")
 		c.ClassIf(e.preempt, "interpreter-offers-preemption")
+		c.ClassIf(len(e.noPreemptNeeded) > 0, "reservation-reports-NeedPreemption-false")
+		c.ClassIf(e.sawGivenUpNoNeedReconciled, "job-reconciled-while-its-reservation-is-given-up-and-needs-no-preemption")
+		c.ClassIf(e.sawPreemptForNoNeed, "preempt-called-for-reservation-needing-none(never on correct code)")
+		c.ClassIf(e.sawNonOnceConsumedBeforeEvict, "reusable-reservation-consumed-by-other-pod-before-eviction(never on correct code)")
+		c.ClassIf(e.sawNonOnceConsumedThenReconciled, "...and-then-the-job-is-reconciled")
+		c.ClassIf(e.sawFalseTemplateConsumedThenReconciled, "reservation-of-allocateOnce:false-template-consumed-by-other-pod-before-eviction-then-reconciled")
+		for _, j := range e.jobs {
+			c.ClassIf(j.userTemplate != "", "job-template-allocateOnce:"+j.userTemplate)
+		}
 		c.ClassIf(e.sawGivenUp, "reservation-given-up-as-unschedulable")
 		c.ClassIf(e.sawPreemptCall, "preempt-called")
 		c.ClassIf(e.sawPreemptIncompleteZero, "preempt-answers-incomplete-with-zero-result-and-no-error")
